@@ -1,0 +1,11 @@
+//go:build !verif
+
+package server
+
+import "time"
+
+type sessionTimer = time.Timer
+
+func newSessionTimer(s *session) *sessionTimer { return time.NewTimer(s.timeout) }
+
+func verifSessionGate(*session, []string) {}
